@@ -712,6 +712,8 @@ pub fn stale(seed: u64, bases: &str, count: u64, max_ops: u64, outdir: &str, lis
     let (mut histories, mut calls, mut stale_calls) = (0u64, 0u64, 0u64);
     let mut reported = 0;
     let mut c02_reported = 0;
+    let mut c10_reported = 0;
+    let mut refusals = 0u64;
     for k in 0..count {
         let b = rng.pick(&images).clone();
         let shared = SharedFile::new(b.clone());
@@ -724,6 +726,7 @@ pub fn stale(seed: u64, bases: &str, count: u64, max_ops: u64, outdir: &str, lis
         let mut open: Vec<(u32, String)> = Vec::new();
         let mut history: Vec<String> = Vec::new();
         let mut panicked = false;
+        let mut pending: std::collections::VecDeque<String> = Default::default();
         for step in 0..(4 + rng.below(max_ops)) {
             let listing = catch(|| {
                 let c = real.comp.as_ref().unwrap();
@@ -732,8 +735,20 @@ pub fn stale(seed: u64, bases: &str, count: u64, max_ops: u64, outdir: &str, lis
             let Ok(listing) = listing else { break };
             let streams: Vec<(String, u64)> = listing.iter().filter(|x| x.1).map(|x| (x.0.clone(), x.2)).collect();
             let storages: Vec<String> = listing.iter().filter(|x| !x.1 && x.0 != "/").map(|x| x.0.clone()).collect();
+            // a directed opening for one history in three: a handle whose window is used up before the end of its
+            // stream (a small write in the middle, flushed), the stream removed under it, then calls on the handle
+            if step == 0 && rng.chance(1, 3) {
+                if let Some((p, len)) = streams.iter().find(|s| s.1 >= 100) {
+                    let at = 10 + rng.below(len - 60);
+                    for l in [format!("hopen 7 {}", enc(p)), format!("hseek 7 {}", at), format!("hwrite 7 {}", hex(&pattern(10, 3))), "hflush 7".to_string(),
+                              format!("rm {}", enc(p)), "hread 7 16".to_string(), "hseek 7 5".to_string(), "hread 7 8".to_string()] {
+                        pending.push_back(l);
+                    }
+                    open.push((7, p.clone()));
+                }
+            }
             // bias: remove a stream a handle is bound to, then create something (the slot is reused)
-            let line = if !open.is_empty() && rng.chance(1, 4) {
+            let line = if let Some(l) = pending.pop_front() { l } else if !open.is_empty() && rng.chance(1, 4) {
                 let p = rng.pick(&open).1.clone();
                 if streams.iter().any(|s| s.0 == p) { format!("rm {}", enc(&p)) } else if rng.chance(1, 2) { format!("mkdir {}", enc(&format!("/st{}", step))) } else { format!("put {} {}", enc(&format!("/ns{}", step)), hex(&pattern(*rng.pick(SIZES), step))) }
             } else {
@@ -749,11 +764,28 @@ pub fn stale(seed: u64, bases: &str, count: u64, max_ops: u64, outdir: &str, lis
                 }
             }
             history.push(line.clone());
+            // C10: a handle call that is refused (a stale handle's read, write-back, seek or set_len is answered NotFound)
+            // changes neither the file nor what the handles show (length, position, unwritten data pending)
+            let before = if line.starts_with('h') && !line.starts_with("hopen") && !line.starts_with("hclose") { Some((shared.snapshot(), real.handle_views())) } else { None };
             let r = real.exec(&line);
             calls += 1;
             if r == "panic" {
                 panicked = true;
                 break;
+            }
+            if let Some((bytes0, views0)) = before {
+                if r == "err notFound" || r == "err invalidInput" || r == "err alreadyExists" {
+                    refusals += 1;
+                    let what = if shared.snapshot() != bytes0 { Some("the file bytes changed".to_string()) } else {
+                        let v = real.handle_views();
+                        if v != views0 { Some(format!("the handles show [{}] instead of [{}] (id:len:position:dirty)", v, views0)) } else { None }
+                    };
+                    if let (Some(w), true) = (what, c10_reported < 3) {
+                        c10_reported += 1;
+                        std::fs::write(format!("{}/S{}.history", outdir, k), history.join("\n") + "\n").unwrap();
+                        println!("ORACLE C10 stale-handles case {} (seed {}): `{}` was refused ({}) but {} [history {}/S{}.history]", k, seed, short(&line), r, w, outdir, k);
+                    }
+                }
             }
         }
         if panicked {
@@ -790,6 +822,7 @@ pub fn stale(seed: u64, bases: &str, count: u64, max_ops: u64, outdir: &str, lis
     println!("STAT stale_histories {}", histories);
     println!("STAT stale_calls {}", calls);
     println!("STAT stale_handle_calls {}", stale_calls);
+    println!("STAT stale_refusals_judged {}", refusals);
 }
 
 // ---------------------------------------------------------------------------------------------
